@@ -1,0 +1,52 @@
+// SPDX-License-Identifier: MIT
+
+//go:build verif
+
+package mux
+
+import "github.com/issue9/mux/v9/internal/syntax"
+
+// 以下内容仅用于验证工具，通过 verif 标签启用，不影响正常的编译结果。
+
+// VerifSegment [syntax.Segment] 的字段
+type VerifSegment struct {
+	Value, Name, Rule, Suffix string
+	Type                      int
+	Endpoint, IgnoreName      bool
+	AmbiguousLength           int
+}
+
+func VerifSplitString(str string) []string { return syntax.VerifSplitString(str) }
+
+func VerifLongestPrefix(s1, s2 string) int { return syntax.VerifLongestPrefix(s1, s2) }
+
+func verifInterceptors(rules map[string]InterceptorFunc) *syntax.Interceptors {
+	i := syntax.NewInterceptors()
+	for r, f := range rules {
+		i.Add(f, r)
+	}
+	return i
+}
+
+// VerifNewSegment 调用 NewSegment
+func VerifNewSegment(rules map[string]InterceptorFunc, val string) (*VerifSegment, error) {
+	seg, err := verifInterceptors(rules).NewSegment(val)
+	if err != nil {
+		return nil, err
+	}
+	v, n, r, s, t, e, ig, al := seg.VerifFields()
+	return &VerifSegment{Value: v, Name: n, Rule: r, Suffix: s, Type: int(t), Endpoint: e, IgnoreName: ig, AmbiguousLength: al}, nil
+}
+
+// VerifMatch 调用 NewSegment 之后以 path 调用 Match
+func VerifMatch(rules map[string]InterceptorFunc, val, path string) (ok bool, params map[string]string, rest string, err error) {
+	seg, err := verifInterceptors(rules).NewSegment(val)
+	if err != nil {
+		return false, nil, "", err
+	}
+	ok, params, rest = seg.VerifMatch(path)
+	return ok, params, rest, nil
+}
+
+// VerifDump 输出路由树的结构
+func (r *Router[T]) VerifDump() string { return r.tree.VerifDump() }
